@@ -80,8 +80,13 @@ class Aggregator:
 
     def add_sweep(self, info):
         self.pairs.update(tuple(p) for p in info.pop('pairs'))
-        self.sweeps.append(info)
         self.c['sweep_points'] += info['points']
+        for s in self.sweeps:
+            if s['sweep'] == info['sweep']:
+                s['points'] += info['points']
+                return
+        info.pop('part', None)
+        self.sweeps.append(info)
 
     def distinct_nontrivial(self):
         return len(self.digests_nontrivial)
